@@ -5,4 +5,17 @@ V = os.path.dirname(os.path.dirname(os.path.abspath(__file__)))
 t = subprocess.run(["python3", os.path.join(V, "tools", "gen_seeded_table.py")], capture_output=True, text=True).stdout
 p = os.path.join(V, "DESIGN.md"); s = open(p).read()
 s = re.sub(r"<!-- seeded-table-begin -->.*<!-- seeded-table-end -->", lambda m: "<!-- seeded-table-begin -->\n" + t + "<!-- seeded-table-end -->", s, flags=re.S)
+# theorem counts in the status table of section 10.2: `| Cxx | <n> | ...` <- number of `theorem` declarations in Props/Cxx*.lean
+import glob
+def count(pid):
+    n = 0
+    for f in glob.glob(os.path.join(V, "lean", "FastorModel", "Props", pid + "*.lean")):
+        base = os.path.basename(f)[:-5]
+        if base == pid or not base[len(pid)].isdigit():
+            n += len(re.findall(r"^theorem\s", open(f).read(), flags=re.M))
+    return n
+def fix(m):
+    n = count(m.group(1))
+    return "| %s | %s |" % (m.group(1), "{:,}".format(n).replace(",", " "))
+s = re.sub(r"^\| (C\d\d) \| [\d  ,]+ \|", fix, s, flags=re.M)
 open(p, "w").write(s)
